@@ -391,13 +391,22 @@ func symUnop(op token.Token, x sym) value {
 // symConv converts symbolic scalar x to the destination basic kind.
 func symConv(dst types.BasicKind, x sym) value {
 	if dst == types.String {
-		// string(rune): concretise the code point
-		v := X.Concretise(x.t, siteSalt(3))
-		_, signed, _ := kindInfo(x.k)
-		if signed {
-			return string(rune(sext64(v, x.t.W)))
+		// string(rune): UTF-8 encode symbolically (forks on the length class only)
+		w, signed, _ := kindInfo(x.k)
+		t := x.t
+		switch {
+		case w < 32 && signed:
+			t = Sext(t, 32)
+		case w < 32:
+			t = Zext(t, 32)
+		case w > 32:
+			// values outside the 32-bit range are invalid code points
+			if X.Branch(Cmp(OpUlt, BV(0x10FFFF, w), t), siteSalt(4)) {
+				return "\uFFFD"
+			}
+			t = Extract(t, 0, 32)
 		}
-		return string(rune(v))
+		return normStr(symstr(symRuneEncode(sym{t, types.Int32})))
 	}
 	if dst == types.UnsafePointer {
 		panic(engineError{"symbolic unsafe.Pointer"})
